@@ -130,6 +130,7 @@ func c01PlanGen(rng *vh.Rand) c01PlanCase {
 }
 
 func c01PlanOne(o *vh.Oracle, r *vh.Result, c *c01PlanCase) error {
+	r.Running(c)
 	rows, rowSpec := c01Rows(c.IDs, c.Sizes)
 	idx := desync.Index{Chunks: rows}
 	var (
@@ -313,6 +314,7 @@ type c01SelfCase struct {
 }
 
 func c01SelfSeedOne(o *vh.Oracle, r *vh.Result, c *c01SelfCase) error {
+	r.Running(c)
 	sizes := make([]uint64, len(c.IDs))
 	for i := range sizes {
 		sizes[i] = 8
